@@ -51,6 +51,16 @@ def wrap(v, t):
     return v
 
 
+def _is_this(o):
+    """`this` or `*this` as the object of a call"""
+    o = strip_lv(o)
+    while o.get('k') in ('paren', 'cast'):
+        o = strip_lv(o['e'])
+    if o.get('k') == 'un' and o.get('op') == '*':
+        o = strip_lv(o['e'])
+    return o.get('k') == 'this'
+
+
 def _on_this(e):
     """member expression on the current object, directly or through anonymous union / struct layers"""
     b = strip_lv(e.get('b') or {'k': 'this'})
@@ -477,6 +487,10 @@ class Run:
             raise Unsupported('variable %s' % e.get('n'))
         if k == 'mem' and _on_this(e) and e.get('f') in self.sinks:
             return ('SINK', e['f'])
+        if k == 'mem' and not _on_this(e) and e.get('f') == '_len':
+            bo = strip_lv(e.get('b') or {})
+            if bo.get('k') == 'var' and ('O', bo.get('id')) in self.bufs and bo.get('id') in self.strobjs:
+                return len(self.bufs[('O', bo['id'])]) - 1          # length field of a modelled String
         if k == 'mem' and not _on_this(e):
             base = self.val(e['b'])
             if isinstance(base, tuple) and base[0] == 'R':
@@ -747,9 +761,9 @@ class Run:
             if name in self.call_ptrs and not e.get('a'):
                 return self.call_ptrs[name]
             m = self.methods.get(name)
-            if m is None and self.methods.get('*') == 'interp' and (e.get('obj') is None or strip_lv(e['obj']).get('k') == 'this'):
+            if m is None and self.methods.get('*') == 'interp' and (e.get('obj') is None or _is_this(e['obj'])):
                 m = 'interp'            # every member of the current object is interpreted from its body
-            if m is not None and (e.get('obj') is None or strip_lv(e['obj']).get('k') == 'this'):
+            if m is not None and (e.get('obj') is None or _is_this(e['obj'])):
                 args = [self.val(a) for a in e.get('a', [])]
                 if callable(m):
                     return m(self, e, args)
